@@ -373,7 +373,7 @@ func genC14Case(r *Rng) c14Input {
 }
 
 func TestC14(t *testing.T) {
-	cfg := LoadCfg(t, 260, 4000)
+	cfg := LoadCfg(t, 260, 3000)
 	em := NewEmitter(t, cfg.Out)
 	defer em.Close()
 	run := func(in c14Input) {
